@@ -36,6 +36,11 @@ class DifferentialForm(Symbol):
 
         return Basic.__new__(cls, name, index, dim)
 
+    def _hashable_content(self):
+        # the degree and the dimension are part of the identity of a form (Symbol
+        # compares by name only): v1 of degree 1 in dimension 2 is not v1 in dimension 3
+        return (self._args[0], self._args[1], self._args[2])
+
     @property
     def name(self):
         return self._args[0]
